@@ -397,3 +397,21 @@ Proof.
   exists (fun _ _ => true), [(1%N, KIface); (0%N, KNil)], 1, 0.
   split; [left; reflexivity|]. split; [reflexivity|]. split; [intros t j i _ _ _ _; reflexivity|split; reflexivity].
 Qed.
+
+(* ---------- a user function named len ---------- *)
+Definition w_shadow_len : expr := ECall (FOpaque "len" TInt) [EIdent "xs" TInts].
+Theorem sloppy_len_shadowed_refuted :
+  exists en e, env_ok en /\ sloppy_len_claim_by_name e = Some true /\ sloppy_len_claim e = None /\
+    eval en e = Some (RVal (VBool false), [Ev "len" [VInts [3; 1]%Z] (VInt (-1))]).
+Proof.
+  exists (env_of [("xs", VInts [3; 1]%Z)] [("len", fun _ => VInt (-1))]), (EBinary OGe w_shadow_len (ELit LInt "0" TInt)).
+  split; [apply env_of_ok|]. vm_compute. repeat split.
+Qed.
+
+Theorem off_by1_shadowed_refuted :
+  exists en e, env_ok en /\ off_by1_by_name e = true /\ off_by1 e = false /\
+    eval en e = Some (RVal (VInt 3), [Ev "len" [VInts [3; 1]%Z] (VInt 0)]).
+Proof.
+  exists (env_of [("xs", VInts [3; 1]%Z)] [("len", fun _ => VInt 0)]), (EIndex (EIdent "xs" TInts) w_shadow_len).
+  split; [apply env_of_ok|]. vm_compute. repeat split.
+Qed.
